@@ -36,6 +36,10 @@ type move struct {
 	Pre  string `json:"pre"`
 	Kind string `json:"kind"`
 	Glue string `json:"glue"`
+	// Race (Bailiwick.tla ConcurrentCold): while the attack query of this move waits for test.'s
+	// referral to Z, another client's cold query for a name below Z runs to completion, so Z's
+	// delegation is already cached when the attack query's processDelegation looks.
+	Race bool `json:"race"`
 }
 
 type rrBrief struct {
@@ -65,10 +69,14 @@ type scriptIn struct {
 	Dialled []string    `json:"dialled"`
 	BankLog [][]string  `json:"bankLog"`
 	Broken  []string    `json:"broken"`
+	// Deep (the model constant): Z and the victim zone sit two labels below test.
+	// (attacker.co.test., bank.co.test.; co.test. is an empty non-terminal of test.)
+	Deep bool `json:"deep"`
 	// the same script under the all-filters-on model (F_sound); a tree that conforms to it
 	// where it differs from the as-is transcription is not drifting
 	AltReplies []replyExp  `json:"altReplies"`
 	AltVictims []victimExp `json:"altVictims"`
+	AltDialled []string    `json:"altDialled"`
 }
 
 type input struct {
@@ -87,16 +95,24 @@ type input struct {
 // servers, so server-log evidence only counts queries for this world's own names.
 type names struct {
 	tld, zTest, zBank, zAtt, victim, nohost, wwwBank, nsBank, trapNS, offPath string
+	// shop.test.: an unrelated zone delegated by test. WITHOUT glue to the victim zone's
+	// nameserver host (served by the bank's server)
+	zShop, wwwShop string
 }
 
 var worldSeq atomic.Uint64
 
-func mkNames() names {
+func mkNames(deep bool) names {
 	tld := fmt.Sprintf("t%x-%x", os.Getpid()&0xffffff, worldSeq.Add(1))
 	z := tld + "."
-	return names{tld: tld, zTest: z, zBank: "bank." + z, zAtt: "attacker." + z, victim: "victim.bank." + z,
-		nohost: "nohost.bank." + z, wwwBank: "www.bank." + z, nsBank: "ns.bank." + z,
-		trapNS: "nstrap.attacker." + z, offPath: "zzz.attacker." + z}
+	m := z // the name Z and the victim zone hang off: test. itself, or the empty non-terminal co.test.
+	if deep {
+		m = "co." + z
+	}
+	return names{tld: tld, zTest: z, zBank: "bank." + m, zAtt: "attacker." + m, victim: "victim.bank." + m,
+		nohost: "nohost.bank." + m, wwwBank: "www.bank." + m, nsBank: "ns.bank." + m,
+		trapNS: "nstrap.attacker." + m, offPath: "zzz.attacker." + m,
+		zShop: "shop." + z, wwwShop: "www.shop." + z}
 }
 
 // canon spells a name (or a text containing names) with the model's "test" label, so keys,
@@ -106,6 +122,10 @@ func (n names) canon(s string) string { return strings.ReplaceAll(s, n.tld+".", 
 func (n names) subZone(i int) string { return fmt.Sprintf("sub%d.%s", i, n.zAtt) }
 func (n names) subHost(i int) string { return "h." + n.subZone(i) }
 func (n names) wName(i int) string   { return fmt.Sprintf("w%d.%s", i, n.zAtt) }
+
+// raceName is what the concurrent client of a race move asks: an ordinary name of Z that is
+// nobody's trigger (Z's server answers it honestly).
+func (n names) raceName(i int) string { return fmt.Sprintf("race%d.%s", i, n.zAtt) }
 func (n names) trigger(i int, m move) string {
 	if refKinds[m.Kind] {
 		return n.subHost(i)
@@ -127,6 +147,7 @@ func (n names) mine(s *authkit.Server) int {
 const (
 	truthVictim = "192.0.2.200"
 	truthWww    = "192.0.2.201"
+	truthShop   = "192.0.2.202"
 	poisonIP    = "6.6.6.6"  // carried by Z's forged records
 	spoofID     = "6.6.6.7"  // carried by the wrong-ID datagram
 	spoofQ      = "6.6.6.8"  // carried by the wrong-question datagram
@@ -147,6 +168,7 @@ var refKinds = map[string]bool{"ref_ok": true, "ref_self": true, "ref_up": true,
 	"ref_mixed": true, "ref_mixed2": true, "ref_class": true, "ref_offpath": true}
 
 func wAddr(i int) string { return fmt.Sprintf("198.51.100.%d", 10+i) }
+func rAddr(i int) string { return fmt.Sprintf("198.51.100.%d", 30+i) }
 func hAddr(i int) string { return fmt.Sprintf("198.51.100.%d", 20+i) }
 
 func lc(s string) string { return strings.ToLower(dns.Fqdn(s)) }
@@ -195,6 +217,16 @@ type world struct {
 	mu       sync.Mutex
 	dials    []string // advertised addresses the resolver dialled, in order
 	hookHits []int    // how often Z's server played move i
+
+	// the concurrent cold query of a race move (Bailiwick.tla ConcurrentCold), see raceHook
+	deep      bool
+	minLevel  int
+	testSrv   *authkit.Server
+	raceArm   atomic.Int32      // k of the race move whose attack query is in flight; 0 = not armed
+	raceAsk   func(name string) // sends the concurrent client's query through the pipeline
+	raceDone  chan struct{}     // closed when that query has been answered
+	raceFired int               // how often the hook started one
+	raceFirst int               // ... and it was answered before test.'s referral was released
 }
 
 func (w *world) noteDial(addr string) {
@@ -216,9 +248,9 @@ func (w *world) dialled(addr string) bool {
 
 // newWorld builds the namespace.  miekg/dns refuses to sign with a key whose tag is 0
 // (authkit panics on it; 1 key in 65536): such a world is thrown away and rebuilt.
-func newWorld(signed bool, moves []move) (*world, error) {
+func newWorld(signed, deep bool, moves []move) (*world, error) {
 	for try := 0; ; try++ {
-		w, err := newWorldOnce(signed, moves)
+		w, err := newWorldOnce(signed, deep, moves)
 		if err != nil || try > 5 {
 			return w, err
 		}
@@ -235,16 +267,17 @@ func newWorld(signed bool, moves []move) (*world, error) {
 	}
 }
 
-func newWorldOnce(signed bool, moves []move) (*world, error) {
+func newWorldOnce(signed, deep bool, moves []move) (*world, error) {
 	n, err := authkit.NewNet(signed)
 	if err != nil {
 		return nil, err
 	}
-	w := &world{names: mkNames(), n: n, signed: signed, moves: moves, localIP: localIfaceIP(), hookHits: make([]int, len(moves))}
+	w := &world{names: mkNames(deep), deep: deep, n: n, signed: signed, moves: moves, localIP: localIfaceIP(), hookHits: make([]int, len(moves))}
 	o := authkit.DelegateOpts{Signed: signed, PublishDS: signed}
-	if _, _, err = n.Delegate(w.zTest, o); err != nil {
+	if _, w.testSrv, err = n.Delegate(w.zTest, o); err != nil {
 		return nil, err
 	}
+	w.testSrv.SetHook(w.raceHook)
 	bank, bankSrv, err := n.Delegate(w.zBank, o)
 	if err != nil {
 		return nil, err
@@ -255,9 +288,18 @@ func newWorldOnce(signed bool, moves []move) (*world, error) {
 	}
 	w.bankSrv, w.attSrv = bankSrv, attSrv
 	bank.Add(w.victim+" 300 IN A "+truthVictim, w.wwwBank+" 300 IN A "+truthWww)
+	// shop.test.: on the bank's server, delegated by test. to the bank's nameserver host without glue
+	so := o
+	so.OnServer, so.Glueless = bankSrv, w.nsBank
+	shop, _, err := n.Delegate(w.zShop, so)
+	if err != nil {
+		return nil, err
+	}
+	shop.Add(w.wwwShop + " 300 IN A " + truthShop)
 	for i := range moves {
 		k := i + 1
 		att.Add(w.wName(k) + " 300 IN A " + wAddr(k))
+		att.Add(w.raceName(k) + " 300 IN A " + rAddr(k))
 		sub, srv, err := n.Delegate(w.subZone(k), o)
 		if err != nil {
 			return nil, err
@@ -296,6 +338,59 @@ func newWorldOnce(signed bool, moves []move) (*world, error) {
 	}
 	attSrv.SetHook(w.attackerHook)
 	return w, nil
+}
+
+// raceHook sits on test.'s server.  When the attack query of a race move is about to get its
+// referral to Z, a second client asks another name below Z through the same pipeline and the
+// referral is held back until that query has been answered: by then Z's delegation is in the
+// cache, and the attack query's processDelegation takes resolveWithCachedNameservers.  No
+// timing is involved with qname minimisation off (the two questions differ, so the lookups are
+// not coalesced; the attack query just waits on the network).  With minimisation on both
+// clients send the same minimised question, the second lookup joins the first one's flight and
+// cannot finish before it: the hold is then bounded and the two race for real.
+func (w *world) raceHook(ex *authkit.Exchange) {
+	if ex.Truth.Kind != "referral" || lc(ex.Truth.Cut) != w.zAtt {
+		return
+	}
+	if k := w.raceArm.Swap(0); k != 0 && w.raceAsk != nil {
+		done := make(chan struct{})
+		w.mu.Lock()
+		w.raceDone = done
+		w.raceFired++
+		w.mu.Unlock()
+		name := w.raceName(int(k))
+		go func() {
+			defer close(done)
+			w.raceAsk(name)
+		}()
+	}
+	w.mu.Lock()
+	done := w.raceDone
+	w.mu.Unlock()
+	if done == nil || strings.HasPrefix(lc(ex.Q.Name), "race") {
+		return // nothing in flight, or this is the concurrent client's own query
+	}
+	hold := 8 * time.Second
+	if w.minLevel > 0 {
+		hold = 150 * time.Millisecond
+	}
+	select {
+	case <-done:
+		w.mu.Lock()
+		w.raceFirst++
+		w.mu.Unlock()
+	case <-time.After(hold):
+	}
+}
+
+// raceWait returns once the concurrent client (if any) has its reply.
+func (w *world) raceWait() {
+	w.mu.Lock()
+	done := w.raceDone
+	w.mu.Unlock()
+	if done != nil {
+		<-done
+	}
 }
 
 func (w *world) stop() {
@@ -517,6 +612,8 @@ func (w *world) symbolOf(ip string) string {
 		return "t_victim"
 	case truthWww:
 		return "t_www"
+	case truthShop:
+		return "t_shop"
 	case poisonIP, trapServed:
 		return "poison"
 	case spoofID, spoofQ, spoofIDQ, spoofTCP, spoofTwoQ, spoofFlood:
@@ -528,6 +625,9 @@ func (w *world) symbolOf(ip string) string {
 		}
 		if ip == hAddr(i+1) {
 			return "t_h"
+		}
+		if ip == rAddr(i+1) {
+			return "t_r"
 		}
 	}
 	if tr := w.n.GroundTruth(dns.Question{Name: w.nsBank, Qtype: dns.TypeA, Qclass: dns.ClassINET}); len(tr.Answer) > 0 &&
@@ -544,7 +644,7 @@ func (w *world) addrSymbol(addr string) string {
 		return addr
 	}
 	switch host {
-	case trapIP:
+	case trapIP, trapIP6:
 		return "a_trap"
 	case loopIP:
 		return "a_loop"
@@ -687,6 +787,9 @@ func kindsOf(moves []move) string {
 		if m.Glue != "" && m.Glue != "na" {
 			k += "/" + m.Glue
 		}
+		if m.Race {
+			k += "@race"
+		}
 		s = append(s, k)
 	}
 	return strings.Join(s, "+")
@@ -695,7 +798,11 @@ func kindsOf(moves []move) string {
 func scriptKey(moves []move) string {
 	var s []string
 	for _, m := range moves {
-		s = append(s, m.Pre+":"+m.Kind+":"+m.Glue)
+		k := m.Pre + ":" + m.Kind + ":" + m.Glue
+		if m.Race {
+			k += ":race" // keys of race-free scripts stay what they were
+		}
+		s = append(s, k)
 	}
 	return strings.Join(s, ",")
 }
@@ -774,10 +881,11 @@ func (rn *runner) runScript(sc scriptIn, variant string, minLevel int) error {
 			return nil
 		}
 	}
-	w, err := newWorld(signed, sc.Script)
+	w, err := newWorld(signed, sc.Deep, sc.Script)
 	if err != nil {
 		return err
 	}
+	w.minLevel = minLevel
 	defer w.stop()
 	dir, err := os.MkdirTemp(vhScratch(), "c07-")
 	if err != nil {
@@ -809,6 +917,7 @@ func (rn *runner) runScript(sc scriptIn, variant string, minLevel int) error {
 	defer stopServer(srv)
 
 	var xlog []exchangeLog
+	var xmu sync.Mutex // the concurrent client of a race move logs from its own goroutine
 	query := func(phase, name string, cd bool, client string) *dns.Msg {
 		q := new(dns.Msg)
 		q.SetQuestion(name, dns.TypeA)
@@ -819,21 +928,32 @@ func (rn *runner) runScript(sc scriptIn, variant string, minLevel int) error {
 		if r != nil {
 			e.Ans, e.Ns, e.Extra = w.rrStrings(r.Answer), w.rrStrings(r.Ns), w.rrStrings(r.Extra)
 		}
+		xmu.Lock()
 		xlog = append(xlog, e)
+		xmu.Unlock()
 		return r
 	}
+	w.raceAsk = func(name string) { query("concurrent", name, signed, "203.0.113.99") }
 	kinds := kindsOf(sc.Script)
 	sk := scriptKey(sc.Script)
+	// keys and messages of the shallow namespace stay what they were; the deep one is marked
+	shape, shapeKey := "", ""
+	if sc.Deep {
+		shape, shapeKey = ", deep namespace (Z = attacker.co.test.)", "@deep"
+	}
 	replay := func() any {
 		w.mu.Lock()
 		d := append([]string(nil), w.dials...)
 		w.mu.Unlock()
-		return map[string]any{"script": sc.Script, "variant": variant, "qname_min_level": minLevel,
-			"exchanges": xlog, "dialled": d, "model": map[string]any{"replies": sc.Replies, "victims": sc.Victims, "broken": sc.Broken}}
+		xmu.Lock()
+		xl := append([]exchangeLog(nil), xlog...)
+		xmu.Unlock()
+		return map[string]any{"script": sc.Script, "variant": variant, "qname_min_level": minLevel, "deep": sc.Deep,
+			"exchanges": xl, "dialled": d, "model": map[string]any{"replies": sc.Replies, "victims": sc.Victims, "broken": sc.Broken}}
 	}
 	violate := func(key, what string) {
-		rn.propose(key+"|"+variant, rankOf(sc.Script, minLevel),
-			fmt.Sprintf("%s [script %s, %s, qname_min_level=%d]", what, sk, variant, minLevel), replay())
+		rn.propose(key+shapeKey+"|"+variant, rankOf(sc.Script, minLevel),
+			fmt.Sprintf("%s [script %s, %s, qname_min_level=%d%s]", what, sk, variant, minLevel, shape), replay())
 	}
 	// predicates evaluated on every client-visible reply
 	judge := func(phase string, culprit string, r *dns.Msg) {
@@ -895,10 +1015,21 @@ func (rn *runner) runScript(sc scriptIn, variant string, minLevel int) error {
 		if m.Glue != "" && m.Glue != "na" {
 			culprit += "/" + m.Glue
 		}
+		if m.Race {
+			culprit += "@race"
+		}
 		for _, phase := range []string{"attack", "repeat"} {
 			bankBefore := len(w.bankSrv.Log())
 			client := fmt.Sprintf("203.0.113.%d", 10*k+map[string]int{"attack": 1, "repeat": 2}[phase])
+			if m.Race && phase == "attack" {
+				w.raceArm.Store(int32(k)) // test.'s server starts the concurrent client when it is about to refer this query to Z
+			}
 			r := query(phase, name, signed, client)
+			if m.Race && phase == "attack" {
+				// a later move finds Z cached and never reaches test.: the race is then moot, as in the model
+				w.raceArm.Store(0)
+				w.raceWait()
+			}
 			judge(phase, culprit, r)
 			// drift: the model's prediction of this reply
 			if e, ok := expReply[fmt.Sprintf("%s/%d", phase, k)]; ok {
@@ -937,7 +1068,9 @@ func (rn *runner) runScript(sc scriptIn, variant string, minLevel int) error {
 	if signed {
 		cds = []bool{true, false}
 	}
-	vnames := []string{w.victim, w.nohost, w.wwwBank, w.nsBank}
+	// the shop query first: its glue-less delegation makes the resolver look the victim zone's nameserver host up,
+	// glue cache first -- before a referral to the victim zone refreshes that entry with the honest glue
+	vnames := []string{w.wwwShop, w.victim, w.nohost, w.wwwBank, w.nsBank}
 	for _, cd := range cds {
 		for vi, vn := range vnames {
 			trapBefore := w.mine(w.trap)
@@ -1020,27 +1153,45 @@ func (rn *runner) runScript(sc scriptIn, variant string, minLevel int) error {
 		}
 	}
 	w.mu.Unlock()
-	modelD := map[string]bool{}
-	for _, d := range sc.Dialled {
-		modelD[d] = true
-	}
-	var diff []string
-	for d := range realD {
-		if !modelD[d] {
-			diff = append(diff, "+"+d)
+	dialDiff := func(model []string) []string {
+		modelD := map[string]bool{}
+		for _, d := range model {
+			modelD[d] = true
 		}
-	}
-	for d := range modelD {
-		if !realD[d] {
-			diff = append(diff, "-"+d)
+		var diff []string
+		for d := range realD {
+			if !modelD[d] {
+				diff = append(diff, "+"+d)
+			}
 		}
+		for d := range modelD {
+			if !realD[d] {
+				diff = append(diff, "-"+d)
+			}
+		}
+		return diff
+	}
+	diff := dialDiff(sc.Dialled)
+	if len(diff) > 0 && sc.AltDialled != nil && len(dialDiff(sc.AltDialled)) == 0 {
+		diff = nil // dials what the all-filters-on model dials
+		rn.res.Count("conforms_to_sound_model_dialled", 1)
 	}
 	if len(diff) > 0 {
 		sort.Strings(diff)
 		rn.res.DriftNote("dialled [%s %s]: code vs model %v", sk, variant, diff)
 		rn.res.Count("drift_dialled", 1)
 	}
-	rn.res.Case(variant + "|" + sk)
+	if len(sc.Script) > 0 && sc.Script[0].Race {
+		rn.res.Count("race_cases", 1)
+		if minLevel == 0 {
+			rn.res.Count("race_cases_nomin", 1)
+		}
+	}
+	w.mu.Lock()
+	rn.res.Count("race_started", w.raceFired)
+	rn.res.Count("race_answered_before_referral_released", w.raceFirst)
+	w.mu.Unlock()
+	rn.res.Case(variant + "|" + sk + shapeKey)
 	if rn.verbose {
 		rn.res.Sample(replay())
 	} else if len(sc.Script) > 0 && (sc.Script[0].Kind == "cname_out" || sc.Script[0].Kind == "ref_side") && sc.Script[0].Pre == "none" {
